@@ -52,7 +52,8 @@ CLAIMS['C08'] = {
              'new_rejects_small/misaligned/overlap for MetaData::valid with overlap_iff (the source predicate is interval '
              'intersection for non-empty ranges). Differential: malformed call stream + construction over carved buffers.'
              ' Theorem check_matches_source: the ensure! conditions of LLFree::check are regenerated from core/src/llfree.rs on every run by the translator (Gen/Check.lean; it also checks that a failing ensure! returns Error::Argument) and their conjunction is exactly ArgsValid, the predicate the model check is proved to decide.'
-             ' Theorem metadata_sizes_match_source: Trees::metadata_size, Lower::metadata_size (through Metadata::new) and Locals::metadata_size are regenerated from the source on every run by the translator (Gen/Meta.lean: div_ceil, next_multiple_of, size_of_slice as written) and equal the buffer sizes of the model for the listed size_of/align_of values of the five element types (trusted, cross-checked by the unit differential meta).'),
+             ' Theorem metadata_sizes_match_source: Trees::metadata_size, Lower::metadata_size (through Metadata::new) and Locals::metadata_size are regenerated from the source on every run by the translator (Gen/Meta.lean: div_ceil, next_multiple_of, size_of_slice as written) and equal the buffer sizes of the model for the listed size_of/align_of values of the five element types (trusted, cross-checked by the unit differential meta).'
+             ' Theorem zone_below_offset_matches_source: ZoneAlloc::get / put / stats_at as regenerated from core/src/wrapper.rs (Gen/Zone.lean) answer Error::Argument (default statistics) for a frame below the offset for every wrapped allocator, which is never called.'),
     'note': TB,
     'technique': 'Lean 4 theorems by symbolic execution of check/get/put in the sequential semantics + differential (malformed stream, buffer layouts)',
 }
@@ -81,7 +82,8 @@ CLAIMS['C17'] = {
              '(for every geometry, frame size and accepted region size z: managed + metadata pages + header page tile the region and '
              'the metadata of the managed frames fits into its pages; with the range theorem of C01/C02 no block overlaps them); '
              'nvm_recover_rejects/accepts. "Recovers with the same allocation state" is carried by the correspondence (create, history, '
-             'forget, recover: same statistics, every held block freeable) and by C05.'),
+             'forget, recover: same statistics, every held block freeable) and by C05.'
+             ' Theorem wrappers_match_source: ZoneAlloc::{get, put, stats_at}, the alignment condition of ZoneAlloc::create and the size / header / split arithmetic of NvmAlloc::create are regenerated from core/src/wrapper.rs on every run by the translator (Gen/Zone.lean: checked_sub, map, ok_or, transpose, ?, div_ceil as written; the wrapped call is a parameter) and proved equal, for every wrapped allocator, offset and frame, to the frame translation and the layout functions of the model (Proofs/GenZone.lean).'),
     'note': TB,
     'technique': 'Lean 4 theorems (symbolic execution of the wrapper, layout arithmetic) + differential runs through ZoneAlloc and NvmAlloc over real memory regions',
 }
